@@ -14,7 +14,7 @@ import shutil
 import vlib
 
 KF_HELPERS = "write-helpers-dump-accumulates"
-POOL_Q = ["tutorial", "clibrary", "strings", "struct-c", "classes", "enum-c", "enum-cxx", "pointers-c", "pointers-cxx", "vectors"]
+POOL_Q = ["tutorial", "clibrary", "strings", "struct-c", "struct-cxx", "classes", "enum-c", "enum-cxx", "pointers-c", "pointers-cxx", "vectors"]
 ARGS0 = ["--option", "debug_testsuite=true", "--nowrite-version"]
 
 
@@ -164,6 +164,10 @@ def run(ctx):
             hist.append(["forward", "none"])
         hist.append(["tutorial", "clibrary"])
         hist.append(["pointers-cxx", "pointers-c", "pointers-cxx"])
+        # the same description in both languages, both orders (language specific statement clauses)
+        hist.append(["struct-c", "struct-cxx"])
+        hist.append(["struct-cxx", "struct-c"])
+        hist.append(["classes", "clibrary", "strings"])
     else:
         for a in base_pool:
             for b in base_pool:
@@ -172,8 +176,10 @@ def run(ctx):
         for _ in range(40):
             hist.append(rng.sample(sorted(refs), 3))
 
+    hist = [list(x) for x in dict.fromkeys(tuple(h) for h in hist)]       # no duplicates: one directory per history
+
     def r2(h):
-        tag = "hist_" + "_".join(h)[:80] + "_%d" % (abs(hash(tuple(h))) % 1000)
+        tag = "hist_%03d_" % hist.index(h) + "_".join(h)[:80]
         bd = os.path.join(ctx.bdir, "runs", tag)
         os.makedirs(bd, exist_ok=True)
         job = []
